@@ -118,6 +118,15 @@ def confirm(name, suite):
     return res
 
 
+def guard_disk():
+    """The Go build cache grows by a full build per scratch worktree path: trim it before the disk fills up."""
+    free = shutil.disk_usage("/").free
+    if free < 60 << 30:
+        env = dict(os.environ)
+        env["PATH"] = "/root/go/pkg/mod/golang.org/toolchain@v0.0.1-go1.25.6.linux-amd64/bin:" + env.get("PATH", "")
+        subprocess.run(["go", "clean", "-cache"], env=env)
+
+
 def main():
     ap = argparse.ArgumentParser()
     ap.add_argument("names", nargs="+")
@@ -125,6 +134,7 @@ def main():
     ap.add_argument("--no-suite", action="store_true")
     a = ap.parse_args()
     os.makedirs(ROOT, exist_ok=True)
+    guard_disk()
     with concurrent.futures.ThreadPoolExecutor(a.jobs) as ex:
         futs = {ex.submit(confirm, n, not a.no_suite): n for n in a.names}
         for f in concurrent.futures.as_completed(futs):
